@@ -62,7 +62,9 @@ async fn snapshot_others(w: &World, except: Option<usize>) -> String {
     format!("{:?} n={}", out, m.tenant_count())
 }
 
-fn leak(w: &World, owner: Option<usize>, body: &str) -> bool {
+fn leak(w: &World, owner: Option<usize>, body: &str, requested: &str) -> bool {
+    // an error message may echo the id the requester typed himself: that is not a leak
+    let body = &body.replace(requested, "<requested-id>");
     for (i, (_, real, key)) in w.tenants.iter().enumerate() {
         if Some(i) == owner { continue; }
         if body.contains(real.as_str()) || body.contains(key.as_str()) { return true; }
@@ -193,7 +195,7 @@ async fn scenario(ctx: &mut Ctx, len: usize) {
                 let text = String::from_utf8_lossy(r.body()).to_string();
                 let v: serde_json::Value = serde_json::from_str(&text).unwrap_or(serde_json::Value::Null);
                 let code = v.get("code").and_then(|c| c.as_str()).unwrap_or("");
-                let leaked = leak(&w, owner, &text);
+                let leaked = leak(&w, owner, &text, &real_pid);
                 let reply = match (status, opname) {
                     (401, _) => "401".to_string(),
                     (404, _) if code == "tenant_not_found" => "404t".into(),
